@@ -136,7 +136,7 @@ theorem no_idle_final_elab (p : RawProj) (h : wfCheck (elaborate p).env = true) 
 /-- what makes "not available" mean "booked": in every state a scenario run ends in, a slot without entries still has room
     (a start-offset reservation or a team levelling never fills a slot by itself) and a marked slot carries an entry -/
 theorem reservations_never_fill_a_slot (e : Env) (wf : WF e) : Solid e (runScenario e) :=
-  runScenario_closed (solid_closed e wf) wf (solid_init e wf)
+  runScenario_closed (solid_closed e wf) wf (fun _ => trivial) (solid_init e wf)
 
 /-- non-vacuity: b (1 h) depends on a (20 min) with a gap of 90 min, one resource -/
 def gapProj : RawProj :=
